@@ -177,8 +177,10 @@ func verifParseExpr(text string, ctx int) string {
 		src = "BEGIN { print " + text + " }"
 	case 2:
 		src = text + " { }"
-	default:
+	case 3:
 		src = "BEGIN { if (" + text + ") x }"
+	default:
+		src = "BEGIN { print " + text + " > \"f\" }"
 	}
 	prog, err := ParseProgram([]byte(src), nil)
 	if err != nil {
@@ -193,6 +195,16 @@ func verifParseExpr(text string, ctx int) string {
 			return "PRINT-SHAPE"
 		}
 		return verifSexp(ps.Args[0])
+	case 4:
+		// the unparenthesised > after the argument is a redirection to "f", whatever the argument's operators
+		ps := prog.Begin[0][0].(*ast.PrintStmt)
+		if len(ps.Args) != 1 || ps.Redirect != lexer.GREATER {
+			return "PRINT-SHAPE"
+		}
+		if d, ok := ps.Dest.(*ast.StrExpr); !ok || d.Value != "f" {
+			return "PRINT-DEST"
+		}
+		return verifSexp(ps.Args[0])
 	case 2:
 		return verifSexp(prog.Actions[0].Pattern[0])
 	}
@@ -202,7 +214,15 @@ func verifParseExpr(text string, ctx int) string {
 var verifBinOps = []string{"=", "+=", "?:", "||", "&&", "in", "~", "<", "==", " ", "+", "-", "*", "/", "%", "^", "u-", "u!", "u+"}
 var verifBinOpsSmall = []string{"=", "?:", "||", "in", "<", " ", "-", "*", "^", "u-"}
 
-func verifLeaf(n string) *verifTree { return &verifTree{leaf: n} }
+var verifNumericLeaves bool
+
+// leaves are names, or (second leaf set) numeric literals: a signed literal must group like a signed name
+func verifLeaf(n string) *verifTree {
+	if verifNumericLeaves && n != "arr" {
+		return &verifTree{leaf: string([]byte{byte('2' + n[0] - 'a')})}
+	}
+	return &verifTree{leaf: n}
+}
 
 // build a node over the operator with the given operands (nil if the shape is not expressible:
 // assignment needs a name on the left, "in" an array name on the right)
@@ -216,7 +236,7 @@ func verifNode(op string, a, b, c *verifTree) *verifTree {
 		if a.op != "" {
 			return nil
 		}
-		return &verifTree{op: op, l: a, r: b}
+		return &verifTree{op: op, l: &verifTree{leaf: "v"}, r: b}
 	case op == "in":
 		return &verifTree{op: op, l: a, r: verifLeaf("arr")}
 	}
@@ -235,11 +255,15 @@ func verifCheckTree(t *verifTree, ctx int) {
 	a, b := verifParseExpr(min, ctx), verifParseExpr(full, ctx)
 	verifReach("parsed-both")
 	verifAssert(a == b, "an expression written with only the parentheses the POSIX table requires groups differently from its fully parenthesised spelling")
+	if ctx == 4 {
+		verifAssert(b != "PRINT-SHAPE" && b != "PRINT-DEST", "inside print an unparenthesised > after a fully parenthesised argument was not taken as a redirection")
+	}
 }
 
 // every pair of operators in every nesting position, four contexts
 func VerifC04Pairs() {
-	ctx := verifIntRange(0, 3)
+	verifNumericLeaves = verifIntRange(0, 1) == 1
+	ctx := verifIntRange(0, 4)
 	o1 := verifBinOps[verifIntRange(0, len(verifBinOps)-1)]
 	o2 := verifBinOps[verifIntRange(0, len(verifBinOps)-1)]
 	a, b, c, d := verifLeaf("a"), verifLeaf("b"), verifLeaf("c"), verifLeaf("d")
@@ -270,7 +294,8 @@ func VerifC04Triples() {
 	if verifBound(0, 1) == 1 {
 		ops = verifBinOps
 	}
-	ctx := verifIntRange(0, 3)
+	verifNumericLeaves = verifBound(0, 1) == 1 && verifIntRange(0, 1) == 1
+	ctx := verifIntRange(0, 4)
 	o1 := ops[verifIntRange(0, len(ops)-1)]
 	o2 := ops[verifIntRange(0, len(ops)-1)]
 	o3 := ops[verifIntRange(0, len(ops)-1)]
